@@ -140,6 +140,8 @@ def server_phase(chk, wd, thorough):
         if len(cands) < nsched * 3:
             raise MachineryFault("ServerLifecycle simulation printed only %d behaviours" % len(cands))
         scheds, covered = select(cands, nsched)
+        for i, sc in enumerate(scheds):
+            sc["id"] = i
         hows = set(f[1] for f in covered if f[0] == "how")
         if missing(covered):
             raise MachineryFault("the selected schedules do not cover every way a store is opened: missing %s" % missing(covered))
@@ -160,6 +162,7 @@ def server_phase(chk, wd, thorough):
             out, _ = vlib.run_harness(binp, args, timeout=3000 if thorough else 900, env={"GOMAXPROCS": "3"})
             return json.loads(out), open(tf).readlines()
         t0 = time.time()
+        f_repro = ex.submit(lambda: json.loads(vlib.run_harness(binp, ["-repro", "-dir", os.path.join(wd, "repro")], timeout=300)[0]))
         reps = list(ex.map(replay, range(procs)))
         vlib.log("[C03srv] replay on the real server + crash images: %.0fs" % (time.time() - t0))
         mc, an = f_mc.result(), f_an.result()
@@ -169,16 +172,17 @@ def server_phase(chk, wd, thorough):
     if an.violation != "EffectiveSynced":
         raise MachineryFault("ServerLifecycle anchor (Synced taken from the stored settings): expected a violation of EffectiveSynced, got %s %s" % (an.violation, an.error))
     chk.cov.setdefault("model_facts", {})["server-lifecycle-anchor"] = "SyncedFromStored = TRUE violates EffectiveSynced as expected"
-    # ---- harness results; schedule numbers are local to a process: make them global
+    # minimal reproductions of this slice's findings (reported through the same verdict path: known finding or violation)
+    rr = f_repro.result()
+    rr["traces"] = 0
+    vlib.absorb(chk, rr)
+    # ---- harness results
     segs = []
     for gi, (r, lines) in enumerate(reps):
-        for v in r.get("violations") or []:
-            if isinstance(v.get("replay"), dict) and "schedule" in v["replay"]:
-                v["replay"]["schedule"] = groups[gi][v["replay"]["schedule"]]
         r["traces"] = 0
         vlib.absorb(chk, r)
         for s in split_segments(lines):
-            segs.append((groups[gi][json.loads(s[0])["sched"]], s))
+            segs.append((json.loads(s[0])["sched"], s))
     if not segs:
         raise MachineryFault("no trace segments")
     # ---- TLC validates every store's trace and judges every crash image
@@ -226,6 +230,10 @@ def server_phase(chk, wd, thorough):
                 judged_bad += 1
                 start = max(i for i in range(item["line"]) if '"ev":"Reset"' in flat[i])
                 sig = "server:%s:%s" % (ev.get("how", "?"), signature(ev, item["verdict"], False))
+                v = item["verdict"]
+                if ev.get("cause") and v["opens"] and v["survives"] and v["extension"] and v["values"] and v["proofs"] and not v["index"]:
+                    # the harness recovered the same image once more without the index's TIMESTAMP file and the index agreed
+                    sig = "server:recovery:index:%s:%s:%s" % (ev["cause"], "kill" if ev["mode"] == "kill" else "power-loss", ev.get("how", "?"))
                 chk.violation(sig, "database %s (store opened: %s): crash image (%s, after %d physical operations of this store) recovers to a state the specification rejects: verdict %s; %s; %s"
                               % (ev.get("store"), ev.get("how"), ev["mode"], ev["k"], json.dumps(item["verdict"]), ev.get("detail", ""), json.loads(flat[start]).get("cfg")),
                               {"schedule": ops_of(scheds[sched]), "maxActiveDatabases": scheds[sched]["cap"], "seed": chk.seed, "database": ev.get("store"),
